@@ -272,6 +272,21 @@ pub struct CsvCase {
     pub config_yaml: String,
 }
 
+/// An account name of random display width (12-46 columns), so that printed postings land on
+/// both sides of the alignment column.
+pub fn random_account(rng: &mut Rng, root: &str) -> String {
+    let words = ["Okane", "Bank", "Credit Cards", "Gold Visa", "Checking", "Zurich", "Savings 2021", "Joint", "X"];
+    let target = 12 + rng.usize(35);
+    let mut s = root.to_string();
+    while s.len() < target {
+        s.push(':');
+        s.push_str(rng.pick_str(&words));
+    }
+    s.truncate(target.max(root.len() + 2));
+    let s = s.trim_end_matches([':', ' ']).to_string();
+    s
+}
+
 pub const BENIGN_PAYEES: &[&str] = &["Migros Zuerich", "Debit Card 31415 Coop", "SBB CFF FFS", "スーパー 西友", "ACME Corp.", "Salary October", "ATM 五反田", "Transfer 0042"];
 pub const CATEGORIES: &[&str] = &["Groceries", "Travel", "Income", "Cash", "Misc"];
 
@@ -334,7 +349,11 @@ impl CsvCase {
                     RateMode::PriceOfSecondary => sec.mul(rate).unwrap(), // 1 SEC = rate PRIMARY
                     RateMode::PriceOfPrimary => sec.div(rate).unwrap(),   // 1 PRIMARY = rate SEC
                 };
-                if base.as_decimal_parts(10).is_some() {
+                if layout.compute && rng.chance(1, 2) {
+                    // computed conversions ignore the secondary amount column: the statement's own amount
+                    // need not be an exact multiple, so the computed amount has as many digits as fit
+                    conv = Some(Conv { sec_amount: sec, sec_commodity, rate, mode: layout.rate_mode.clone(), compute: true });
+                } else if base.as_decimal_parts(10).is_some() {
                     let mut a = base;
                     if layout.charge_col && layout.rate_mode == RateMode::PriceOfSecondary && !layout.compute && rng.chance(1, 2) {
                         let ch = Q::int(rng.range(1, 500) as i128).mul(unit).unwrap();
@@ -363,7 +382,7 @@ impl CsvCase {
                 charge,
             });
         }
-        let account = if liability { "Liabilities:Okane Card" } else { "Assets:Okane Bank" }.to_string();
+        let account = random_account(rng, if liability { "Liabilities" } else { "Assets" });
         let file_name = format!("stmt{}.csv", rng.below(1000));
         let mut case = CsvCase { layout, rows, opening, account, primary, file_name, csv_text: String::new(), config_yaml: String::new() };
         case.render(rng);
@@ -690,7 +709,7 @@ impl CamtCase {
         if new_to_old {
             entries.reverse();
         }
-        let mut case = CamtCase { currency, opening, closing: bal, entries, new_to_old, account: "Assets:Okane Bank".into(), file_name: format!("camt{}.xml", rng.below(1000)), xml: String::new(), config_yaml: String::new() };
+        let mut case = CamtCase { currency, opening, closing: bal, entries, new_to_old, account: random_account(rng, "Assets"), file_name: format!("camt{}.xml", rng.below(1000)), xml: String::new(), config_yaml: String::new() };
         case.render();
         case
     }
